@@ -363,11 +363,8 @@ def run_case(ctx, rep, case, base_dir, model_ok):
             for s_ in v["snaps"]:
                 if s_["id"] == v["cur"] and len(set(s_["files"])) != len(s_["files"]):
                     problems.append("a data file is listed twice by the current snapshot (a commit applied twice)")
-            n_new = len([s_ for s_ in v["snaps"] if s_["id"] not in init_snaps])
-            n_ack_snap = sum(1 for a_ in specs if acks[a_] and specs[a_]["kind"] in ("append", "delfiles", "append+expire")) + \
-                sum(sum(1 for d_ in specs[a_].get("done", []) if d_) for a_ in specs if specs[a_]["kind"] == "append2")
-            if not any(acks[a_] and specs[a_]["kind"] in ("expire", "delsnap", "append+expire") for a_ in specs) and n_new > n_ack_snap:
-                problems.append(f"{n_new} new snapshots for {n_ack_snap} acknowledged snapshot-creating commits")
+            # (the NUMBER of new snapshots is not judged: an attempt that landed while its committer was told "conflict" is retried and may
+            # leave an additional snapshot that adds nothing — the table content, which is what the property speaks about, is unaffected)
             # chain: linear parents, strictly increasing sequence numbers
             seqs = sorted((s["seq"], s["id"]) for s in v["snaps"])
             if len({q for q, _ in seqs}) != len(seqs):
